@@ -140,7 +140,7 @@ def rvbStep (nv edges gamma h state slots subvars start toggles accepted log ast
         decide (weight P asg * transProb P asg asg2 = weight P2 asg2 * transProb P2 asg2 asg)
     else decide (a = b) && okB
   let verdict := if margin < 1 / 1000000000 then "?" else "ok"
-  s!"{showApprox p} {k} {showBool accOk} {showBool (startOk && growOk)} {moveTok} {p2Tok} {showBool dbOk} {verdict} DBG start={startOk} cells={cells} ones={ones} growth={growth} choice={choice} flat={flat.length} idle={idle.length} draws={rs2.draws} len={len} acc={acc}"
+  s!"{showApprox p} {k} {showBool accOk} {showBool (startOk && growOk)} {moveTok} {p2Tok} {showBool dbOk} {verdict}"
 
 def step (toks : List String) : String :=
   match toks with
